@@ -344,7 +344,14 @@ def edif_design_sites(t, sp=None):
 # texts that must be tried for every format in every tier: nothing, blanks, only a comment
 EDGE_TEXTS = {
     "edif": [("empty", ""), ("blank", " \n\t \n"), ("comment_only", '(comment "nothing else")'), ("string_only", '"s"')],
-    "verilog": [("empty", ""), ("blank", " \n\t \n"), ("comment_only", "// nothing else\n"), ("block_comment_only", "/* nothing else */")],
+    "verilog": [("empty", ""), ("blank", " \n\t \n"), ("comment_only", "// nothing else\n"), ("block_comment_only", "/* nothing else */"),
+                # files that END inside a lexical state (the first one is a VALID file)
+                ("valid_ends_in_line_comment", "module t (a);\n  input a;\nendmodule // tail"),
+                ("line_comment_no_newline", "// nothing else"), ("open_block_comment", "module t (a); /* open"),
+                ("open_string", 'module t (a); (* k = "abc'), ("open_escaped_identifier", "module \\esc"),
+                ("open_directive", "`timescale 1ps/1ps"), ("error_before_string", 'endmodule"abc'),
+                ("error_before_escaped", "endmodule\\x"), ("error_before_directive", "endmodule`define X"),
+                ("error_before_line_comment", "endmodule//c"), ("error_before_block_comment", "endmodule/*c")],
     "eblif": [("empty", ""), ("blank", " \n\t \n"), ("comment_only", "# nothing else\n"), ("comment_no_newline", "# nothing else")],
 }
 
@@ -380,6 +387,7 @@ EDIF_SCOPES = """(edif scopes
         (contents
           (instance u_sub (viewRef netlist (cellRef sub)))
           (instance u_buf (viewRef netlist (cellRef BUF2 (libraryRef prims))))
+          (instance u_sub2 (viewRef netlist (cellRef sub (libraryRef work))))
           (net a (joined (portRef a) (portRef a (instanceRef u_sub))))
           (net m (joined (portRef y (instanceRef u_sub)) (portRef I (instanceRef u_buf))))
           (net d (joined (portRef t) (portRef (member D 1) (instanceRef u_buf))))
@@ -570,6 +578,38 @@ UNSUPPORTED_AT = {
 }
 
 
+# constructs that put a tokenizer into a state (string, escaped identifier, directive, comments)
+LEX_OPENERS = {
+    "verilog": ['"abc', "\\esc", "`define X", "//c", "/*c"],
+    "edif": ['"abc'],
+    "eblif": ["\\", "# c"],
+}
+LEX_JUNK = {"verilog": ["9zz", "@@", "zz_bad"], "edif": ["zz_bad"], "eblif": [".zz_bad"]}
+ILLEGAL = {"edif": ["!", "-", "%", "/"], "verilog": ["!", "-", "%", "~"], "eblif": ["!", "[", "=", "%"]}
+_IDENT = re.compile(r"^[A-Za-z_&\\][A-Za-z0-9_$\[\]:.]*$")
+
+
+def long_tokens(fmt, rng=None):
+    """long, almost legal identifiers: 30-60 alphanumerics, with and without underscores, that contain
+    or end in an illegal character (a backtracking pattern or a quadratic scan shows on these)"""
+    r = rng or random_stub()
+    n1, n2 = r.randint(30, 60), r.randint(30, 60)
+    bad = ILLEGAL[fmt]
+    a = ("Ab1c" * 20)[:n1] + r.choice(bad)
+    b = ("ab_1_cd2__" * 8)[:n2]
+    k = r.randint(n2 // 2, n2 - 2)
+    b = b[:k] + r.choice(bad) + b[k:]
+    return [a, b]
+
+
+class random_stub:
+    def randint(self, a, b):
+        return (a + b) // 2
+
+    def choice(self, l):
+        return l[0]
+
+
 def corruptions(rec, rng=None, sample=None, n_replace=None):
     """All single corruptions of a text record.  `n_replace`: how many of the junk replacements per
     token (None = all); `sample`: keep a seeded, class-balanced sample of about that size.  Entries with
@@ -582,7 +622,8 @@ def corruptions(rec, rng=None, sample=None, n_replace=None):
     out = []
     for i in range(n):
         edge = i == 0 or i == n - 1
-        out.append({"kind": "truncate", "pos": i, "must": edge or i == 1 or bool(rec.get("full_truncate"))})
+        out.append({"kind": "truncate", "pos": i, "must": edge or i == 1 or bool(rec.get("full_truncate")),
+                    "one_policy": not (edge or i == 1)})
         out.append({"kind": "delete", "pos": i, "must": edge})
         out.append({"kind": "duplicate", "pos": i, "must": edge})
         cur = t[sp[i][0]:sp[i][1]]
@@ -593,18 +634,32 @@ def corruptions(rec, rng=None, sample=None, n_replace=None):
             out.append({"kind": "replace", "pos": i, "with": j, "must": i == 0})
     if n:
         out.append({"kind": "truncate", "pos": n, "must": True})  # = the valid text without trailing blanks
+    fixed = bool(rec.get("full_truncate") or rec.get("full_refs"))
+    spread = set(range(0, n, max(1, n // 6))) if fixed else set()
+    for i in range(n):
+        cur = t[sp[i][0]:sp[i][1]]
+        # the text ends INSIDE a lexical state / the error point sits directly in front of one
+        for op in LEX_OPENERS[fmt]:
+            out.append({"kind": "lexstate", "pos": i, "mode": "cut_inside", "with": op, "must": i in spread, "one_policy": True})
+            for jk in LEX_JUNK[fmt]:
+                out.append({"kind": "lexstate", "pos": i, "mode": "bad_before", "with": jk + op, "must": False})
+        # a long, almost legal identifier in every identifier position
+        if _IDENT.match(cur) and (i == 0 or t[sp[i - 1][0]:sp[i - 1][1]] != "(" or fmt != "edif"):
+            for lt in long_tokens(fmt, rng):
+                out.append({"kind": "longid", "pos": i, "with": lt, "must": fixed and i in spread, "one_policy": True})
     if fmt == "edif":
         full = bool(rec.get("full_refs"))
         sites = dict(edif_ref_sites(t, sp))
         sites.update(dict(edif_design_sites(t, sp)))
         for i in sorted(sites):
-            out.append({"kind": "retarget", "pos": i, "ref": sites[i], "with": "zz_undeclared", "must": full})
+            out.append({"kind": "retarget", "pos": i, "ref": sites[i], "with": "zz_undeclared", "must": full, "one_policy": True})
             cur = t[sp[i][0]:sp[i][1]]
             if cur.swapcase() != cur:
                 # EDIF identifiers are case-insensitive: still the same reference
-                out.append({"kind": "recase", "pos": i, "ref": sites[i], "with": cur.swapcase(), "must": full})
+                out.append({"kind": "recase", "pos": i, "ref": sites[i], "with": cur.swapcase(), "must": full, "one_policy": True})
         for c in edif_rescope(t, sp, sites, rng):
             c["must"] = full
+            c["one_policy"] = True
             out.append(c)
         tok = [t[a:b] for a, b in sp]
         for i in range(n - 1):
@@ -646,7 +701,11 @@ def apply(rec, c):
         return t[:a] + t[b:]
     if k == "duplicate":
         return t[:b] + " " + t[a:b] + t[b:]
-    if k in ("replace", "retarget", "recase", "rescope"):
+    if k == "lexstate":
+        if c["mode"] == "cut_inside":
+            return t[:a] + c["with"]
+        return t[:a] + c["with"] + " " + t[a:]
+    if k in ("replace", "retarget", "recase", "rescope", "longid"):
         return t[:a] + c["with"] + t[b:]
     if k == "unsupported":
         return t[:a] + c["with"] + " " + t[a:]
